@@ -47,6 +47,7 @@ type FrameBounds struct {
 	SmallDomain      bool     // few distinct values (grouping, filtering)
 	NoNullStr        bool
 	ManyEnumValues   bool // now and then an enum column with 32..70 distinct values
+	LongNames        bool // column names of 35..250 characters (wider than any fixed-size scratch space)
 }
 
 var intPool = []int{0, 1, -1, 2, 3, 7, 42, -42, 1 << 31, -(1 << 31), math.MaxInt64, math.MinInt64, 255, 256}
@@ -198,6 +199,9 @@ func drawName(t *rapid.T, b FrameBounds, i int, used map[string]bool) string {
 			if rapid.Bool().Draw(t, "prefix") {
 				name = "n" + name
 			}
+		}
+		if b.LongNames && rapid.IntRange(0, 2).Draw(t, "longname") != 0 {
+			name += "_" + strings.Repeat("long", []int{8, 20, 60}[rapid.IntRange(0, 2).Draw(t, "namelen")])
 		}
 		if validName(name) && !used[name] && !strings.HasPrefix(name, "__") {
 			used[name] = true
